@@ -693,10 +693,14 @@ def _binop(self, op, va, vb, node):
         elif isinstance(op, ast.FloorDiv):
             if a is not None and b is not None and b.is_const() and b.c != 0:
                 res = a.scale(1 / b.c).floor()
+                if res is None and b.c == 2:
+                    res = _half_symbol(a)
         elif isinstance(op, ast.RShift):
             # x >> c == x // 2**c for integers
             if a is not None and b is not None and b.is_const() and b.c >= 0 and b.c.denominator == 1:
                 res = a.scale(F(1, 2 ** int(b.c))).floor()
+                if res is None and b.c == 1:
+                    res = _half_symbol(a)
         elif isinstance(op, ast.LShift):
             if a is not None and b is not None and b.is_const() and b.c >= 0 and b.c.denominator == 1:
                 res = a.scale(2 ** int(b.c))
@@ -1051,6 +1055,21 @@ def _int_like(v):
     if isinstance(v, Const) and isinstance(v.v, float) and v.v == int(v.v):
         return Aff(int(v.v))
     return None
+
+
+def _half_symbol(a):
+    """floor(a / 2) for an integer affine form of undetermined parity: a symbol h with the definition recorded in Aff.HALF, so
+    that a later parity test (`a != 2*h`, `a % 2`) can replace it by a/2 resp. (a-1)/2 in its arms"""
+    if not all(v.denominator == 1 for v in a.t.values()) or a.c.denominator != 1:
+        return None
+    # only for forms in which exactly one loop symbol has an odd coefficient (the parity of the iteration)
+    odd = [s_ for s_, v in a.t.items() if v % 2 != 0]
+    if len(odd) != 1 or odd[0] not in Aff.BOUNDS:
+        return None
+    name = 'half(%s)' % a
+    Aff.HALF[name] = a
+    Aff.SYM_MIN[name] = 0
+    return Aff.sym(name)
 
 
 def e_Compare(self, n, st):
@@ -1893,6 +1912,24 @@ def e_Subscript(self, n, st):
         if stp is not None and not any(isinstance(x, ast.Call) for x in ast.walk(sl)):
             deps = {x.id: value_key(st.env.get(x.id)) for x in ast.walk(sl) if isinstance(x, ast.Name)}
             r.slice_view = (n.value.id, sl.lower, stp, deps)
+    if isinstance(r, Num) and r.is_array and isinstance(v, Num) and v.shape is not None and len(v.shape) == 1 and self.frames \
+            and isinstance(n.slice, ast.Slice) and n.slice.lower is None and n.slice.upper is None \
+            and isinstance(n.slice.step, ast.UnaryOp) and isinstance(n.slice.step.op, ast.USub) \
+            and isinstance(n.slice.step.operand, ast.Constant) and n.slice.step.operand.value == 1 \
+            and isinstance(n.value, ast.Subscript) and isinstance(n.value.value, ast.Name) and isinstance(n.value.slice, ast.Slice) \
+            and n.value.slice.step is None and not any(isinstance(x, ast.Call) for x in ast.walk(n.value.slice)):
+        # A[lo:hi][::-1]: element j is A[hi-1-j] -- the reversed view A[hi-1::-1] as far as element access goes
+        base_arr = st.env.get(n.value.value.id)
+        if isinstance(base_arr, Num) and base_arr.shape is not None and len(base_arr.shape) == 1:
+            hi_ = n.value.slice.upper
+            low_ = None if hi_ is None else ast.BinOp(left=hi_, op=ast.Sub(), right=ast.Constant(1))
+            if low_ is not None:
+                ast.copy_location(low_, n)
+                ast.fix_missing_locations(low_)
+            deps = {x.id: value_key(st.env.get(x.id)) for x in ast.walk(n.value.slice) if isinstance(x, ast.Name)}
+            r.slice_view = (n.value.value.id, low_, -1, deps)
+            if r.mid is None or r.mid != base_arr.mid:
+                r.mid = base_arr.mid
     if isinstance(r, Num) and isinstance(v, Num) and v.shape is not None and len(v.shape) == 2 and isinstance(n.value, ast.Name) \
             and not isinstance(idx, (Tup, SliceV)) and _asint(idx) is not None and r.shape is not None and len(r.shape) == 1:
         # row = M[e]: a view of one row of the local matrix M (stores through it land in M)
